@@ -16,7 +16,7 @@ SPEC_TIMEOUT = 900
 CONFIRM_ALONE = ('soft_limit_not_raised_exactly_once_in_task', 'pool_hung_with_soft_limit',
                  'soft_timeout_callback_missing_or_wrong')
 FLOORS = {
-    'quick': {'sim:soft_expiries': 150, 'sim:scans': 3000, 'real:scenarios': 10,
+    'quick': {'sim:soft_expiries': 60, 'sim:scans': 2000, 'real:scenarios': 10,
               'real:soft_expired': 5, 'real:soft_not_expired': 2, 'real:caught_and_returned': 2},
     'thorough': {'sim:soft_expiries': 1500, 'sim:scans': 30000},
 }
